@@ -317,3 +317,73 @@ def cleanup_tmp(path: str | None) -> None:
 
 def canon(x) -> str:
     return json.dumps(x, sort_keys=True, default=repr)
+
+
+# ------------------------------------------------------------------ human-in-the-loop accumulator workflow (C26 / C36)
+
+
+def reply_factory(case: dict, log: dict):
+    """A run that idles between external Reply events: every Reply is an ordinary step input (never lost to a missing
+    waiter); the step records it in the state store and ends the run when `total` replies were recorded."""
+    m = genwf.M()
+    ge, step, Context, Workflow = m["ge"], m["step"], m["Context"], m["Workflow"]
+    total = case["total"]
+    log.setdefault("body", [])
+    log.setdefault("life", 0)
+
+    async def start(self, ctx, ev):
+        await ctx.store.set("got", [])
+        return None
+
+    async def on_reply(self, ctx, ev):
+        ent = {"n": ev.get("n"), "life": log["life"], "t_in": VClock.t, "t_out": None, "exit": None}
+        log["body"].append(ent)
+        try:
+            if case.get("work"):
+                await asyncio.sleep(case["work"])
+            async with ctx.store.edit_state() as s:
+                got = list(s.get("got", [])) + [ev.get("n")]
+                s["got"] = got
+            ent["exit"] = "returned"
+            if len(got) >= total:
+                return ge.GStop(result={"got": sorted(got), "order": got})
+            return None
+        except asyncio.CancelledError:
+            ent["exit"] = "cancelled"
+            raise
+        finally:
+            ent["t_out"] = VClock.t
+
+    def ann(fn, name, ev_t, ret_t):
+        fn.__name__ = name
+        fn.__qualname__ = f"ReplyWf.{name}"
+        fn.__annotations__ = {"ctx": Context, "ev": ev_t, "return": ret_t}
+        return fn
+
+    Nn = type(None)
+    U = typing.Union
+    members = {
+        "start": step(ann(start, "start", ge.GStart, U[ge.GStop, Nn])),
+        "on_reply": step(num_workers=case.get("workers", 1))(ann(on_reply, "on_reply", ge.Reply, U[ge.GStop, Nn])),
+    }
+    cls = type("ReplyWf", (Workflow,), members)
+    return lambda: cls(timeout=None)
+
+
+async def watch_release(cur: dict, run_id: str, obs: dict, period: float = 0.25):
+    """Record when the run leaves / re-enters the idle-release decorator's active set, and the handler row at that moment."""
+    was = True
+    while True:
+        await asyncio.sleep(period)
+        lf = cur.get("life")
+        if lf is None or lf.dead:
+            was = True
+            continue
+        dec = lf.server._runtime._decorated
+        active = run_id in dec._active_run_ids
+        if was and not active:
+            row = await handler_row(cur["store"], cur["handler_id"])
+            obs.setdefault("released", []).append({"t": VClock.t, "idle_since_set": bool(row and row.idle_since), "status": row.status if row else None})
+        if active and not was:
+            obs.setdefault("reloaded", []).append(VClock.t)
+        was = active
